@@ -301,6 +301,8 @@ static int preparePublicationsFileRequest(KSI_NetworkClient *client, KSI_Request
 
 cleanup:
 
+	KSI_RequestHandle_free(tmp);
+
 	return res;
 }
 
